@@ -9,14 +9,16 @@ def crash(name, fault, menu, aday, dday, startup, daily, compress, **kw):
     j['unwind_patterns'] = dict(j['unwind_patterns'], h_fs_crash=8)
     return j
 JOBS = [
-    crash('crash_size', 0, 0, 0, 0, 0, 0, 0),
-    crash('fault_size', 1, 0, 0, 0, 0, 0, 0),
+    crash('crash_size', 0, 0, 0, 0, 0, 0, 0, extra={'VF_RESTART_L0': 1}),
+    crash('fault_size', 1, 0, 0, 0, 0, 0, 0, extra={'VF_RESTART_L0': 1}),
+    crash('crash_size_full', 0, 0, 0, 0, 0, 0, 0, tiers=('thorough',), timeout=5400, mem=32),
+    crash('fault_size_full', 1, 0, 0, 0, 0, 0, 0, tiers=('thorough',), timeout=5400, mem=32),
     crash('crash_gz', 0, 0, 0, 0, 1, 0, 1, timeout=3000, mem=28, tiers=('thorough',)),
     crash('fault_gz', 1, 0, 0, 0, 1, 0, 1, timeout=3000, mem=28, tiers=('thorough',)),
     crash('crash_daily', 0, 2, 1, 1, 0, 1, 0, tiers=('thorough',)),
     crash('fault_daily', 1, 2, 1, 1, 0, 1, 0, tiers=('thorough',)),
 ]
-BOUNDS = {'quick': bounds('(C10 jobs: only the first rotated file of the menu, at most 2 earlier records of 1 character, size limit 0..5) the process dies at a symbolic operation 0..14 of the file-system model during one rotating write (size rotation; startup rotation with compression), or that operation (rename / remove / open for writing) fails; then a new sink writes one more record; file-count limit <= 1 (no retention)'),
+BOUNDS = {'quick': bounds('(C10 jobs: only the first rotated file of the menu, at most 2 earlier records of 1 character, size limit 0..5) the process dies at a symbolic operation 0..14 of the file-system model during one rotating write (size rotation; startup rotation with compression), or that operation (rename / remove / open for writing) fails; then a new sink (quick: without a size limit, so it appends; thorough: with the same limit) writes one more record; file-count limit <= 1 (no retention)'),
           'thorough': bounds('plus failures during compression and crash / failure during daily rotation')}
 OUTSIDE = OUTSIDE + '; torn writes (a write becomes durable whole or not at all), failing write()/flush() calls (the property lists rename, creating the compressed file and delete), retention limits >= 2 in these jobs; counterexamples replay natively on the real code over the file-system model (crash points cannot be injected into the real kernel here)'
 ASSUMPTIONS = ASSUMPTIONS + ['crash model: from the crash operation on no file-system operation has any effect; readers see the durable bytes']
